@@ -154,6 +154,23 @@ prop("C13", "exploration",
      [{"test": "TestC13", "quick": {"checks": 8000, "shards": 2, "timeout": 600},
        "thorough": {"checks": 80000, "shards": 16, "timeout": 3000}}])
 
+prop("C11", "exploration",
+     "cases = histories of 1-60 operations over the exported Tracer API (register top-level key, register nested key under a "
+     "(slot, type) parent, journal change, enter call, exit call) drawn over a deliberately tiny universe (2 accounts, 1-3 of 5 "
+     "slots incl. hashed positions, offsets {nil,0,1,16,31,32,255,2^64}, 3 type ids, names {'',a,b,c}, 4 index keys) so that "
+     "shared slots / shared locations / shared paths are frequent; plus a bounded-EXHAUSTIVE enumeration of all histories up "
+     "to length 2 (thorough: 3) over a 58-operation alphabet (3 480 resp. 198 592 histories). Reference model = set of accepted registrations and changes; "
+     "after every step: I1 path lookup and (slot, offset, type) lookup of every accepted key reach the same record; I2 an "
+     "accepted change is the last entry under the current call index in both views and a change for a registered key is "
+     "accepted; I3 invalid offset / unknown parent / unregistered key are refused and a refused operation leaves EVERY "
+     "query result unchanged (full observable snapshot); I4 repeating an accepted registration changes nothing; I5 reported "
+     "child indices == indices accepted under the node. Conflicting registrations may be refused or aliased, but whatever "
+     "is accepted must satisfy I1-I5. Non-trivial = two accepted keys share a slot and a change was accepted in it.",
+     [{"test": "TestC11", "quick": {"checks": 6000, "shards": 4, "timeout": 600},
+       "thorough": {"checks": 200000, "shards": 16, "timeout": 3000}},
+      {"test": "TestC11Exhaustive", "quick": {"checks": 1, "shards": 1, "timeout": 600},
+       "thorough": {"checks": 1, "shards": 1, "timeout": 3000}}])
+
 # ---------------------------------------------------------------------------
 # Text for MANIFEST.json (gen_manifest.py)
 
@@ -234,6 +251,16 @@ MANIFEST_TEXT = {
         "level_note": "Journal instructions executed under a top-level CALLCODE/DELEGATECALL/STATICCALL entry (no enclosing "
                       "CALL/CREATE frame exists) are outside the statement and are not generated. Value decoding itself is C09's.",
         "technique": "property-based testing against a shadow model driven by the event log (rapid)",
+    },
+    "C11": {
+        "level_text": "Model-based stateful property testing of the key tree through its exported API (rapid-drawn histories, "
+                      "invariants after every step, full observable snapshot before/after) plus bounded-exhaustive enumeration "
+                      "of all short histories over a reduced alphabet.",
+        "design_ref": "DESIGN.md section 4, C11",
+        "level_note": "For conflicting registrations (a path re-registered at another location, a second path to a registered "
+                      "location) the statement does not prescribe accept-and-alias versus refuse; the oracle accepts either. "
+                      "Order of returned slices is C16's subject.",
+        "technique": "stateful model-based property testing + bounded-exhaustive enumeration (rapid)",
     },
     "C13": {
         "level_text": "Property-based testing of a history invariant: the balance journal is compared with the balances the "
